@@ -12,8 +12,9 @@ K  (model vs implementation)
               exact `on_log` calls, the returned batch).
    K-route    for every generated program and configuration: which cycles / results / headers are offloaded (number and
               order of uploads) == Lean `wantsBatch` / `wantsCollector` / `serveAll`.
-   K-stream   per stream, what the client observed == Lean `C30.Pipe.iterate / exchangeAll` over the toy environment — also
-              when the stored object was corrupted (the model gets the corrupted object's view as the harness parsed it).
+   K-stream   socket family: per stream, the exact event sequence the client observed == Lean `C30.Pipe.iterate /
+              exchangeAll` over the toy environment — also when the stored object was corrupted (the model gets the corrupted
+              object's view as the harness parsed it).
 O  (property on the implementation)
    O-transparent  programs x thresholds {0, around a batch size, never, no storage} x {none, zstd, gzip} x {pipe, http,
               http + client upload-URL flow}: every call's observation (logs in order, data batches with app metadata in
@@ -414,10 +415,11 @@ def check_program(ctx: Any, store: extsvc.Store, desc: dict[str, Any], script: l
             ctx.tag(f"client-uploads:{min(nclient, 4)}")
             if nclient > big:
                 ctx.mismatch(case, big, nclient, "more client uploads than requests above max_request_bytes")
-        # ---- K-stream: the model's events for every stream (socket family: exact order; http: observation)
+        # ---- K-stream: the model's events for every stream (socket family, exact order).  The HTTP client's eager /init
+        # parse regroups events (C01/C11's subject); over HTTP the tie is the same-transport inline comparison above.
         for i, (name, evs) in enumerate(calls):
             m = by_name[name]
-            if m["kind"] == "unary" or m.get("init", "ok") != "ok":
+            if cfg.kind != "pipe" or m["kind"] == "unary" or m.get("init", "ok") != "ok":
                 continue
             ms = model_stream(ctx, m, nin[i], cfg)
             if ms is None:
@@ -428,11 +430,8 @@ def check_program(ctx: Any, store: extsvc.Store, desc: dict[str, Any], script: l
                 pre.append(["header", m.get("hdr", 0)])
             mev = pre + ms["events"]
             ccase = {**case, "call_index": i}
-            if cfg.kind == "pipe":
-                if upto_failure(evs) != upto_failure(mev):
-                    ctx.mismatch(ccase, mev, evs, "pipe: delivered event order vs C30.Pipe model")
-            elif obs_of(evs) != obs_of(mev):
-                ctx.mismatch(ccase, obs_of(mev), obs_of(evs), "http: observation vs C30 model")
+            if upto_failure(evs) != upto_failure(mev):
+                ctx.mismatch(ccase, mev, evs, "pipe: delivered event order vs C30.Pipe model")
 
 
 def thr_tag(cfg: ExtCfg) -> str:
@@ -507,7 +506,7 @@ def fetched_json(data: bytes | None, encoding: str | None, sha_as: str | None = 
     p = extsvc.parse_stream(dec)
     sha = sha_as if sha_as is not None else hashlib.sha256(dec).hexdigest()
     if p["bad"]:
-        return {"sha": s2j(sha), "parsed": "bad"}
+        return {"sha": s2j(sha), "parsed": "other" if p["other"] else "bad"}
     return {"sha": s2j(sha), "parsed": {"schema": schema_tag(p["schema"]), "tail": p["tail"],
                                         "batches": [wbatch_json(b, cm) for b, cm in p["batches"]]}}
 
@@ -641,6 +640,8 @@ def classify_exc(e: BaseException) -> list[Any]:
         mm = re.search(r"Multiple data batches \((\d+)\)", s)
         if mm:
             return ["multiple", int(mm.group(1))]
+    if isinstance(e, pa.ArrowException) and not isinstance(e, (pa.ArrowInvalid, OSError)):
+        return ["readError"]
     if isinstance(e, ValueError):
         if "Schema mismatch in ExternalLocation" in s:
             return ["schemaMismatch"]
@@ -1054,7 +1055,7 @@ def _run(ctx: Any, rng: Any, store: extsvc.Store) -> None:
     for script, cfg, sp in plan:
         _corrupt_cached(ctx, store, d1, script, cfg, sp, cache)
     # ---- generated programs
-    for _ in range(ctx.budget(8, 150)):
+    for _ in range(ctx.budget(6, 60)):
         desc = gen_program(rng)
         script = gen_script(rng, desc)
         if not script:
@@ -1066,7 +1067,7 @@ def _run(ctx: Any, rng: Any, store: extsvc.Store) -> None:
                 check_program(ctx, store, desc, sc, configs_for(rng, desc, sc, full=False))
         # corruptions on single-call scripts of this program
         cache = {}
-        for _j in range(ctx.budget(6, 30)):
+        for _j in range(ctx.budget(6, 20)):
             client_side = rng.random() < 0.3
             scripts = single_call_scripts(desc, rng, client_side)
             script1 = rng.choice(scripts)
